@@ -106,9 +106,17 @@ pub fn gen_lines(out: &mut Out, rng: &mut Rng, thorough: bool) {
 
 /// whole matrices: real labels with random values, random labels, all-data, uniform
 pub fn gen_squares(out: &mut Out, rng: &mut Rng, thorough: bool) {
-    let versions: Vec<usize> = if thorough { vec![0, 0, 0, 1, 1, 2, 3, 6, 9, 13, 20, 39] } else { vec![0, 0, 1, 2, 6] };
-    for (k, v) in versions.into_iter().enumerate() {
-        for style in 0..6usize {
+    // every one of the 40 sizes at least once (the column view comes from default::transpose, whose loop bounds
+    // depend on the side), small sizes in all six styles
+    let mut versions: Vec<(usize, usize)> = Vec::new();
+    for v in if thorough { vec![0, 0, 0, 1, 1, 2, 3, 6, 9, 13, 20, 39] } else { vec![0, 0, 1, 2, 6] } {
+        for style in 0..6usize { versions.push((v, style)); }
+    }
+    for v in 0..40usize {
+        for style in if thorough { vec![0usize, 1, 3, 5] } else { vec![[0usize, 5][v % 2]] } { versions.push((v, style)); }
+    }
+    for (k, (v, style)) in versions.into_iter().enumerate() {
+        {
             let t = h::create_matrix(version_of(v));
             let n = t.size;
             let mut s = String::with_capacity(n * n);
